@@ -639,7 +639,7 @@ def run(chk):
                 return l2
         return rec["lines"]
 
-    # decisions: violations of the property seen on the implementation (at most two inputs per request kind and failure class)
+    # decisions: violations of the property seen on the implementation (one input per request kind and failure class)
     for d in dis:
         w = judge_line(d["line"], d["impl"])
         if w and not any(j["line"] == d["line"] and j["lines"][:1] == d["lines"][:1] for j in judged):
@@ -650,9 +650,9 @@ def run(chk):
         key = key_of(j["line"], j["impl"], j["what"])
         g = tuple(key.split(":")[:3]) if not key.endswith("does-not-compile") else (key,)
         groups.setdefault(g, [])
-        if len(groups[g]) < 2:
+        if len(groups[g]) < 1:
             groups[g].append((key, j))
-    for g in sorted(groups)[:12]:
+    for g in sorted(groups)[:10]:
         for key, j in groups[g]:
             chk.report(key, "%s: %s" % (strip_raws(j["line"]), j["what"]),
                        {"family": FAMILY, "harness": HARNESS, "stateful": True, "lines": minimal(j), "observed_impl": j["impl"][:400], "model": j["model"][:400]})
@@ -712,4 +712,42 @@ def run(chk):
 
 
 def replay(path):
-    return vcheck.generic_replay("C17", path)
+    """Re-run a replay file on a fresh build of the working tree: implementation, model and the judgement of the property."""
+    from translate import rng as trans
+    from vlib import lean
+    obj = json.load(open(path))
+    rp = obj.get("replay", {})
+    print("replay of C17: %s" % obj.get("what", "")[:300])
+    if "theorem" in rp:
+        with trans.gen_lock():
+            trans.generate(lock=False)
+            res = lean.check_obligations(MODS, "quick", [FAMILY])
+        bad = rp["theorem"] in res["failed"]
+        print("theorem %s: %s" % (rp["theorem"], "does not check: " + res["failed"][rp["theorem"]] if bad else "checks"))
+        return 1 if bad else 0
+    if "compile" in rp:
+        ok_c, cmd, err = compile_test()
+        print(cmd)
+        print("compiles" if ok_c else err[-3000:])
+        return 0 if ok_c else 1
+    if "lines" not in rp:
+        print(json.dumps(rp, indent=1)[:3000])
+        return 0
+    exe = build.build_harness(HARNESS)
+    with trans.gen_lock():
+        trans.generate(lock=False)
+        lean.lake(["build", "drv_" + FAMILY])
+    lines = rp["lines"]
+    impl, reports = vrun.run_impl(exe, lines, stateful=True)
+    model = vrun.run_model(FAMILY, lines)
+    bad = 0
+    for l, i, m in zip(lines, impl, model):
+        w = judge_line(l, i)
+        differs = not vrun.same(i, m)
+        if w or differs:
+            bad += 1
+        print("%s %s\n    impl : %s\n    model: %s%s" % ("!" if (w or differs) else " ", l[:300], i[:300], m[:300],
+                                                         "\n    PROPERTY VIOLATED: " + w if w else ""))
+    for r in reports:
+        print("crash report:", r["kind"], (r.get("stderr") or "")[-600:])
+    return 1 if bad or reports else 0
